@@ -1,11 +1,11 @@
 //! Tie of the L0 whole-formatter model (coq/theories/Fmt0.v): programs of the fragment, as a tree (S-expression) and as
 //! source text in an arbitrary layout (blanks, tabs, single line breaks, redundant parentheses, semicolons, call sugar,
 //! single quotes, `;` table separators, trailing separators), formatted by the library under every whitespace configuration.
-//!   L0 <id> <windows 0|1> <spaces 0|1> <indent width> <quote style> <tree> <source hex> <ok|status> <output hex>
+//!   L0 <id> <windows 0|1> <spaces 0|1> <indent width> <quote style>/<call_parentheses>/<space_after_function_names> <tree> <source hex> <ok|status> <output hex>
 use crate::common::*;
 
 #[derive(Clone)]
-enum E { Nil, True, False, Va, Num(String), Str(char, String), Name(String), Field(Box<E>, String), Index(Box<E>, Box<E>), Call(Box<E>, Vec<E>), Method(Box<E>, String, Vec<E>),
+enum E { Nil, True, False, Va, Num(String), Str(char, String), Name(String), Field(Box<E>, String), Index(Box<E>, Box<E>), Call(Box<E>, Vec<E>), Method(Box<E>, String, Vec<E>), Sugar(Box<E>),
          Un(&'static str, Box<E>), Bin(&'static str, Box<E>, Box<E>), Paren(Box<E>), Table(Vec<F>) }
 #[derive(Clone)]
 enum F { Pos(E), Named(String, E), Key(E, E) }
@@ -32,12 +32,20 @@ impl<'a> G<'a> {
         match self.rng.below(9) {
             0 => E::Nil, 1 => E::True, 2 => E::False,
             3 => E::Num(self.rng.pick(&["0", "1", "42", "007", "123456", ".5", "3.25", "1e10", "0xFF", "5.", ".0e1"]).to_string()),
-            4 => { let (q, b) = *self.rng.pick(STRS0); E::Str(q, b.to_string()) }
+            4 => self.string(),
             5 if vararg => E::Va,
             _ => E::Name(self.name()),
         }
     }
-    fn args(&mut self, d: usize, va: bool) -> Vec<E> { (0..self.rng.below(4)).map(|_| self.exp(d, va)).collect() }
+    /// call arguments; one time in three a single string / table, half of them written without parentheses (E::Sugar)
+    fn args(&mut self, d: usize, va: bool) -> Vec<E> {
+        if self.rng.chance(1, 3) {
+            let x = if d > 0 && self.rng.chance(1, 2) { self.table(d - 1, va) } else { self.string() };
+            let x = if self.rng.chance(1, 5) { E::Paren(Box::new(x)) } else if self.rng.chance(1, 2) { E::Sugar(Box::new(x)) } else { x };
+            return vec![x];
+        }
+        (0..self.rng.below(4)).map(|_| self.exp(d, va)).collect()
+    }
     /// a prefix expression: name, parenthesised expression, field / index / call / method chain
     fn prefix(&mut self, d: usize, va: bool) -> E {
         let mut e = if d > 0 && self.rng.chance(1, 6) { E::Paren(Box::new(self.exp(d - 1, va))) } else { E::Name(self.name()) };
@@ -78,27 +86,34 @@ impl<'a> G<'a> {
             }
             4 | 5 => E::Paren(Box::new(self.exp(d - 1, va))),
             6 | 7 => self.prefix(d, va),
-            8 => {
-                let n = self.rng.below(4);
-                E::Table((0..n).map(|_| match self.rng.below(3) {
-                    0 => F::Named(self.name(), self.exp(d - 1, va)),
-                    1 => F::Key(self.exp(d - 1, va), self.exp(d - 1, va)),
-                    _ => F::Pos(self.exp(d - 1, va)),
-                }).collect())
-            }
+            8 => self.table(d - 1, va),
             _ => self.atom(va),
         }
+    }
+    fn string(&mut self) -> E { let (q, b) = *self.rng.pick(STRS0); E::Str(q, b.to_string()) }
+    fn table(&mut self, d: usize, va: bool) -> E {
+        let n = self.rng.below(4);
+        E::Table((0..n).map(|_| match self.rng.below(3) {
+            0 => F::Named(self.name(), self.exp(d, va)),
+            1 => F::Key(self.exp(d, va), self.exp(d, va)),
+            _ => F::Pos(self.exp(d, va)),
+        }).collect())
     }
     fn exps(&mut self, min: usize, d: usize, va: bool) -> Vec<E> { (0..min + self.rng.below(3)).map(|_| self.exp(d, va)).collect() }
     fn names(&mut self) -> Vec<String> { (0..1 + self.rng.below(2)).map(|_| self.name()).collect() }
     /// a variable: name, or a chain that ends in a field or an index and starts with a name
     fn var(&mut self, va: bool) -> E {
         let n = E::Name(self.name());
-        match self.rng.below(3) { 0 => n, 1 => E::Field(Box::new(n), self.name()), _ => E::Index(Box::new(n), Box::new(self.exp(1, va))) }
+        // one time in six a call in the middle of the chain: `f "s".x = 1`, `f({}):m()[1] = 2`
+        let n = if self.rng.chance(1, 6) { if self.rng.chance(1, 3) { E::Method(Box::new(n), self.name(), self.args(1, va)) } else { E::Call(Box::new(n), self.args(1, va)) } } else { n };
+        let must = !matches!(n, E::Name(_));
+        match self.rng.below(3) { 0 if !must => n, 1 => E::Field(Box::new(n), self.name()), 0 => E::Field(Box::new(n), self.name()), _ => E::Index(Box::new(n), Box::new(self.exp(1, va))) }
     }
     fn call_stmt(&mut self, va: bool) -> E {
         let n = E::Name(self.name());
         let f = if self.rng.chance(1, 3) { E::Field(Box::new(n), self.name()) } else { n };
+        // one time in five a call of the result of a call: `f "s" "t"`, `f("s"):m()`
+        let f = if self.rng.chance(1, 5) { E::Call(Box::new(f), self.args(1, va)) } else { f };
         if self.rng.chance(1, 3) { E::Method(Box::new(f), self.name(), self.args(2, va)) } else { E::Call(Box::new(f), self.args(2, va)) }
     }
     fn comment(&mut self) -> String { let n = self.rng.below(1000); match self.rng.below(6) { 0 => String::new(), 1 => format!(" c{} two words", n), 2 => format!("c{}", n), _ => format!(" c{}", n) } }
@@ -163,15 +178,17 @@ impl<'a> G<'a> {
 
 // ---- the tree as an S-expression (blanks written `_`, as ml/sexp.ml expects) ----
 fn hx(s: &str) -> String { let h = hex(s.as_bytes()); if h == "#" || h.is_empty() { "#".to_string() } else { h } }
+fn sugar(a: &[E]) -> u8 { matches!(a, [E::Sugar(_)]) as u8 }
 fn sx_e(e: &E) -> String {
     match e {
         E::Nil => "(nil)".into(), E::True => "(true)".into(), E::False => "(false)".into(), E::Va => "(va)".into(),
         E::Num(s) => format!("(num_{})", hx(s)), E::Str(_, s) => format!("(str_{})", hx(s)), E::Name(s) => format!("(name_{})", hx(s)),
         E::Field(p, n) => format!("(field_{}_{})", sx_e(p), hx(n)), E::Index(p, k) => format!("(index_{}_{})", sx_e(p), sx_e(k)),
-        E::Call(f, a) => format!("(call_{}_({}))", sx_e(f), a.iter().map(sx_e).collect::<Vec<_>>().join("_")),
-        E::Method(o, m, a) => format!("(method_{}_{}_({}))", sx_e(o), hx(m), a.iter().map(sx_e).collect::<Vec<_>>().join("_")),
+        // the flag: the single string / table argument is written without parentheses
+        E::Call(f, a) => format!("(call_{}_{}_({}))", sx_e(f), sugar(a), a.iter().map(sx_e).collect::<Vec<_>>().join("_")),
+        E::Method(o, m, a) => format!("(method_{}_{}_{}_({}))", sx_e(o), hx(m), sugar(a), a.iter().map(sx_e).collect::<Vec<_>>().join("_")),
         E::Un(u, x) => format!("(un_{}_{})", u, sx_e(x)), E::Bin(b, l, r) => format!("(bin_{}_{}_{})", b, sx_e(l), sx_e(r)),
-        E::Paren(x) => format!("(paren_{})", sx_e(x)),
+        E::Paren(x) => format!("(paren_{})", sx_e(x)), E::Sugar(x) => sx_e(x),
         E::Table(fs) => format!("(table_({}))", fs.iter().map(|f| match f {
             F::Pos(x) => format!("(fpos_{})", sx_e(x)), F::Named(n, x) => format!("(fnamed_{}_{})", hx(n), sx_e(x)), F::Key(k, x) => format!("(fkey_{}_{})", sx_e(k), sx_e(x)),
         }).collect::<Vec<_>>().join("_")),
@@ -207,10 +224,8 @@ impl<'a> P<'a> {
     fn t(&mut self, s: &str) { self.out.push_str(s); }
     fn list<T>(&mut self, v: &[T], mut f: impl FnMut(&mut Self, &T)) { for (i, x) in v.iter().enumerate() { if i > 0 { self.bl(); self.t(","); self.ws(); } f(self, x); } }
     fn args(&mut self, a: &[E]) {
-        // call sugar for a single string / table argument
-        if a.len() == 1 && self.rng.chance(1, 3) {
-            match &a[0] { E::Str(_, _) | E::Table(_) => { self.bl(); let x = a[0].clone(); self.e(&x); return; } _ => {} }
-        }
+        // a single string / table argument written without parentheses
+        if let [E::Sugar(x)] = a { self.bl(); let x = (**x).clone(); self.e(&x); return; }
         self.bl(); self.t("("); self.bl(); self.list(a, |p, x| p.e(x)); self.bl(); self.t(")");
     }
     fn e(&mut self, e: &E) {
@@ -225,6 +240,7 @@ impl<'a> P<'a> {
             E::Un(u, x) => { self.t(u); self.t(" "); self.e(x); }
             E::Bin(b, l, r) => { self.e(l); self.ws(); self.t(b); self.ws(); self.e(r); }
             E::Paren(x) => { self.t("("); self.bl(); self.e(x); self.bl(); self.t(")"); }
+            E::Sugar(x) => self.e(x),
             E::Table(fs) => {
                 self.t("{"); self.bl();
                 for (i, f) in fs.iter().enumerate() {
@@ -332,14 +348,17 @@ pub fn main(args: &[String]) {
         if !parses(&src, syntax("Lua51")) { unparsed += 1; println!("UNPARSED g{} {}", k, hex(src.as_bytes())); continue; }
         for (win, spaces, width) in [(0, 0, 4), (1, 0, 4), (0, 1, 1 + rng.below(8)), (1, 1, 1 + rng.below(8))] {
             let style = *rng.pick(&["AutoPreferDouble", "AutoPreferSingle", "ForceDouble", "ForceSingle"]);
+            let callp = *rng.pick(&["Always", "Always", "NoSingleString", "NoSingleTable", "None", "Input"]);
+            let space = *rng.pick(&["Never", "Never", "Definitions", "Calls", "Always"]);
             let cfg = config(&["syntax=Lua51", "column_width=100000", &format!("line_endings={}", if win == 1 { "Windows" } else { "Unix" }),
-                               &format!("indent_type={}", if spaces == 1 { "Spaces" } else { "Tabs" }), &format!("indent_width={}", width), &format!("quote_style={}", style)]);
+                               &format!("indent_type={}", if spaces == 1 { "Spaces" } else { "Tabs" }), &format!("indent_width={}", width), &format!("quote_style={}", style),
+                               &format!("call_parentheses={}", callp), &format!("space_after_function_names={}", space)]);
             records += 1;
             match format_guarded(&src, cfg, None) {
-                Outcome::Ok(o) => println!("L0 g{} {} {} {} {} {} {} ok {}", k, win, spaces, width, style, tree, hex(src.as_bytes()), hex(o.as_bytes())),
-                Outcome::ParseError => println!("L0 g{} {} {} {} {} {} {} parseerror -", k, win, spaces, width, style, tree, hex(src.as_bytes())),
-                Outcome::OtherError(_) => println!("L0 g{} {} {} {} {} {} {} error -", k, win, spaces, width, style, tree, hex(src.as_bytes())),
-                Outcome::Panic(_) => println!("L0 g{} {} {} {} {} {} {} panic -", k, win, spaces, width, style, tree, hex(src.as_bytes())),
+                Outcome::Ok(o) => println!("L0 g{} {} {} {} {}/{}/{} {} {} ok {}", k, win, spaces, width, style, callp, space, tree, hex(src.as_bytes()), hex(o.as_bytes())),
+                Outcome::ParseError => println!("L0 g{} {} {} {} {}/{}/{} {} {} parseerror -", k, win, spaces, width, style, callp, space, tree, hex(src.as_bytes())),
+                Outcome::OtherError(_) => println!("L0 g{} {} {} {} {}/{}/{} {} {} error -", k, win, spaces, width, style, callp, space, tree, hex(src.as_bytes())),
+                Outcome::Panic(_) => println!("L0 g{} {} {} {} {}/{}/{} {} {} panic -", k, win, spaces, width, style, callp, space, tree, hex(src.as_bytes())),
             }
         }
     }
